@@ -263,7 +263,7 @@ func init() {
 		Generate: GenFleet(&fleetProfile{prop: "C08", stores: allKinds, roles: []string{"sketch", "sketch", "exact"}, minNodes: 1, maxNodes: 3, shareMap: true, intruder: true,
 			weights: []string{"unit", "int", "frac"}, valueSigns: []string{"pos", "neg", "mixed", "zeros"},
 			ops:   map[string]int{"add": 30, "addw": 15, "burst": 6, "merge": 3, "clear": 2, "send": 20},
-			forms: []string{"bin", "bin", "binomit"}, modes: []string{"merge", "fresh"}, queryEvery: 0, maxOps: 40, afterSend: sweepAfterSend}),
+			forms: []string{"bin", "bin", "binomit"}, modes: []string{"merge", "fresh"}, queryEvery: 0, maxOps: 40, afterSend: sweepAfterSend, extra: diskActor}),
 		Execute: ExecFleet,
 		NonTrivial: func(p *engine.Plan) bool {
 			for _, e := range p.Events {
@@ -596,4 +596,36 @@ func init() {
 		Stub:        []string{"adder, reader and merger actors with think times"},
 		Assumptions: []string{"finite values only (NaN and infinities are outside the statement); Min/Max are not called on an empty dataset", "when fl(q*(n-1)) and the exact product lie on different sides of an integer, either neighbouring order statistic is accepted", sampleAssumption},
 	})
+}
+
+// diskActor is the C08 actor: periodic checkpoints, disk faults (torn and lost
+// writes), crashes and restarts.
+func diskActor(g *fleetGen) {
+	r := g.r
+	left := r.Range(0, 10)
+	var act func()
+	act = func() {
+		if left <= 0 {
+			return
+		}
+		left--
+		n := g.nodes[r.Intn(len(g.nodes))]
+		switch r.Pick(50, 50) {
+		case 0:
+			g.emit(engine.Event{Ev: "checkpoint", N: n.id})
+		default:
+			g.emit(engine.Event{Ev: "checkpoint", N: n.id})
+			switch r.Pick(50, 20, 30) {
+			case 0:
+				g.emit(engine.Event{Ev: "diskfault", N: n.id, I: int64(r.Intn(4096)), S: "torn"})
+			case 1:
+				g.emit(engine.Event{Ev: "diskfault", N: n.id, S: "lost"})
+			}
+			g.emit(engine.Event{Ev: "crash", N: n.id})
+			g.emit(engine.Event{Ev: "restart", N: n.id})
+			n.n = 0
+		}
+		g.q.After(int64(r.Range(1, 2500)), act)
+	}
+	g.q.After(int64(r.Range(100, 1500)), act)
 }
